@@ -389,8 +389,8 @@ def run(stmts: list[ast.stmt], env: dict[str, Any], funcs: dict[str, ast.Functio
             raise _Break()
         elif isinstance(s, ast.Continue):
             raise _Continue()
-        elif isinstance(s, (ast.Pass,)):
-            pass
+        elif isinstance(s, (ast.Pass, ast.Import, ast.ImportFrom)):
+            pass        # a local import binds names the world provides among the globals
         elif isinstance(s, ast.Expr) and isinstance(s.value, ast.Constant):
             pass
         elif isinstance(s, ast.Expr) and isinstance(s.value, ast.Yield):
